@@ -8,6 +8,7 @@ import (
 	"path/filepath"
 	"strconv"
 	"strings"
+	"unicode/utf8"
 
 	cli "github.com/ajitpratap0/GoSQLX/cmd/gosqlx/cmd"
 	"github.com/ajitpratap0/GoSQLX/pkg/linter"
@@ -186,8 +187,8 @@ func lspFormat(text string, insertSpaces bool) (res string, err error) {
 
 // applyEdits applies LSP text edits the way a client does (positions are
 // line/character; a character past the end of the line means the end of the line;
-// a line past the end of the document means the end of the document).  The texts
-// are ASCII, so characters are bytes.
+// a line past the end of the document means the end of the document; characters are
+// UTF-16 code units).
 func applyEdits(text string, edits []lsp.TextEdit) (string, error) {
 	if len(edits) == 0 {
 		return text, nil
@@ -214,11 +215,21 @@ func applyEdits(text string, edits []lsp.TextEdit) (string, error) {
 		if p.Line >= len(starts) {
 			return len(text), nil
 		}
-		c := p.Character
-		if c > lens[p.Line] {
-			c = lens[p.Line]
+		// characters are UTF-16 code units (LSP): walk the line's runes
+		line := text[starts[p.Line] : starts[p.Line]+lens[p.Line]]
+		units, b := 0, 0
+		for _, r := range line {
+			if units >= p.Character {
+				break
+			}
+			if r >= 0x10000 {
+				units += 2
+			} else {
+				units++
+			}
+			b += utf8.RuneLen(r)
 		}
-		return starts[p.Line] + c, nil
+		return starts[p.Line] + b, nil
 	}
 	e := edits[0]
 	a, err := pos(e.Range.Start)
